@@ -383,6 +383,19 @@ CLI_CASES = [
     ("ode2c", ["--format", "none", "--scheme", "forward_generalized_rush_larsen", "--scheme", "explicit_euler",
                "--scheme", "generalized_rush_larsen"], "h",
      {"schemes": ["forward_generalized_rush_larsen", "explicit_euler", "generalized_rush_larsen"]}),
+    # stiff states and delta must reach the hybrid scheme of the written file (decided on the file, see hybrid_check)
+    ("ode2py", ["--format", "none", "--scheme", "explicit_euler", "--scheme", "generalized_rush_larsen", "--scheme", "hybrid_rush_larsen",
+                "-s", "x", "-s", "z", "--delta", "0.05"], "py",
+     {"schemes": ["explicit_euler", "generalized_rush_larsen", "hybrid_rush_larsen"], "stiff_states": ["x", "z"], "delta": 0.05,
+      "hybrid_check": "numpy"}),
+    ("ode2py", ["--format", "none", "--backend", "jax", "--scheme", "explicit_euler", "--scheme", "generalized_rush_larsen",
+                "--scheme", "hybrid_rush_larsen", "--stiff-states", "y", "--delta", "0.5"], "py",
+     {"schemes": ["explicit_euler", "generalized_rush_larsen", "hybrid_rush_larsen"], "stiff_states": ["y"], "delta": 0.5,
+      "backend": "jax", "hybrid_check": "jax"}),
+    ("ode2c", ["--format", "none", "--scheme", "explicit_euler", "--scheme", "generalized_rush_larsen", "--scheme", "hybrid_rush_larsen",
+               "-s", "z", "--delta", "0.05"], "h",
+     {"schemes": ["explicit_euler", "generalized_rush_larsen", "hybrid_rush_larsen"], "stiff_states": ["z"], "delta": 0.05,
+      "hybrid_check": "c"}),
 ]
 
 
@@ -443,6 +456,8 @@ def work(task):
                     n = len(re.findall(r"^(?:def|void)\s+%s\s*\(" % re.escape(sch), got, flags=re.M))
                     prog.fact(f"cli|{cmd}|{' '.join(args)}|defines|{sch}", n == 1, "SchemeListNotHonoured",
                               f"'{cmd} {' '.join(args)}': the written file defines the requested scheme {sch} {n} times")
+                if kw.get("hybrid_check"):
+                    hybrid_check(prog, got, task["text"], kw)
             prog.nontrivial = True
             if len(prog.samples) < 2:
                 prog.samples.append({"command": [cmd] + args, "exit": p.returncode})
@@ -461,6 +476,28 @@ def work(task):
                           f"{cmd} on an invalid model ({bad}) wrote / truncated {outp}")
             prog.nontrivial = True
     return prog.result()
+
+
+def hybrid_check(prog, written, text, kw):
+    """The file the CLI wrote is executed symbolically: its hybrid scheme must be RL (with the requested delta, i.e. equal
+    to the generalized_rush_larsen of the same file) in exactly the requested stiff slots and explicit Euler elsewhere, and its
+    generalized_rush_larsen must be the reference RL update with the requested delta."""
+    from .. import checks, refsem
+    from ..views import PyView, CView
+    from . import c07
+    m = refsem.parse_model(text)
+    b = kw["hybrid_check"]
+    try:
+        view = CView(written) if b == "c" else PyView(written, b)
+    except Exception as e:
+        prog.fact(f"cli|written-file|{b}|parse", False, "SyntaxError", f"the written file cannot be analysed: {type(e).__name__}: {str(e)[:200]}")
+        return
+    try:
+        c07.check_hybrid(prog, view, m, set(kw["stiff_states"]), f"cli-file|{b}")
+        checks.check_grl(prog, view, m, kw["delta"], tag="|cli-file")
+    finally:
+        if b == "c":
+            view.close()
 
 
 def bounds(tier):
